@@ -163,6 +163,14 @@ Theorem C19_wf_invariant : forall p tv (history : list sev) (s : sstate),
   wf s -> sane p tv s history -> wf (fst (srun p tv s history)).
 Proof. exact wf_srun. Qed.
 
+(** *** Re-delivering the header that already is the store head (a soft answer that
+    verifies directly: networkHead calls setLocalHead twice; or the second of several
+    callers sharing one flight) changes nothing and - since /repo 80904e6 - makes
+    syncStore.Append return no errNonAdjacent, whatever is pending. *)
+Theorem C19_redelivered_head_is_noop : forall (s : sstate) (h : hdr),
+  s_store s = Some h -> set_local_head s h = s /\ store_append_err (s_store s) h = false.
+Proof. exact slh_redeliver. Qed.
+
 (** *** The sequential function IS the thread machine run without interleaving. *)
 Theorem C19_seq_is_solo_thread : forall p tv (c : cstate) (i : nat) (cto : Z) (a : gans) (b1 : bifres) (t : tans) (b2 : bifres),
   c_pc c i = PIdle -> f_open (c_f c) = None -> a <> GHang ->
@@ -232,3 +240,4 @@ Print Assumptions C19_seq_is_solo_thread.
 Print Assumptions C19_singleflight_group_keeps.
 Print Assumptions C19_singleflight_group_init_fails.
 Print Assumptions C19_wf_invariant.
+Print Assumptions C19_redelivered_head_is_noop.
